@@ -33,6 +33,8 @@ pub struct Gen {
     pub bias_entry: bool,
     pub allow_inject: bool,
     pub serde_ok: bool,
+    /// keys of other maps (so that operands of set operations share keys)
+    pub extra_keys: Vec<EP>,
 }
 
 impl Gen {
@@ -56,6 +58,7 @@ impl Gen {
             bias_entry: false,
             allow_inject: false,
             serde_ok: false,
+            extra_keys: Vec::new(),
         }
     }
 
@@ -101,6 +104,10 @@ impl Gen {
 
     /// a key biased towards relatives of resident keys (network form)
     pub fn key(&mut self, m: &Model) -> EP {
+        if !self.extra_keys.is_empty() && self.rng.chance(1, 4) {
+            let i = self.rng.below(self.extra_keys.len());
+            return self.extra_keys[i].canon();
+        }
         let r = self.rng.below(100);
         let res = self.resident(m);
         let cand: Option<EP> = match (r, res) {
